@@ -45,6 +45,7 @@ type job struct {
 	Out          string        `json:"out"`
 	Workdir      string        `json:"workdir"`
 	ItemTimeoutS int           `json:"item_timeout_s,omitempty"`
+	Reuse        bool          `json:"reuse,omitempty"` // every other process generates a second time from the parsed document
 }
 
 var quickCorpus = []string{
@@ -211,7 +212,7 @@ func Main(args []string) int {
 			j := prng.Intn(k + 1)
 			order[k], order[j] = order[j], order[k]
 		}
-		jb, _ := json.Marshal(job{Items: order, Runs: p.c.runs, Delays: p.c.delays, Seed: r.Seed + int64(i), Out: p.out, Workdir: mod.Dir, ItemTimeoutS: 300})
+		jb, _ := json.Marshal(job{Items: order, Runs: p.c.runs, Delays: p.c.delays, Seed: r.Seed + int64(i), Out: p.out, Workdir: mod.Dir, ItemTimeoutS: 300, Reuse: i%2 == 0})
 		jf := filepath.Join(scratch, fmt.Sprintf("job%d.json", i))
 		os.WriteFile(jf, jb, 0o644)
 		env := genlab.GoEnv(fmt.Sprintf("GOMAXPROCS=%d", p.c.procs), "GORACE=halt_on_error=0 log_path="+p.log)
